@@ -8,19 +8,25 @@ import zoo, flowcheck as fc
 from . import register
 
 def join_inst(n1, n2, sep, mod, buf, twoout=False):
-    """twoout: the first producer has two out-ports, both fanned into the sub-stream (two members written by the same task)"""
-    procs = [zoo.src("s1", zoo.items(n1, "a")), zoo.cmd("a1", ["in"], ["o1", "o2"] if twoout else ["out"]), dict(name="ss", kind="substream")]
-    edges = [zoo.E("s1.out", "a1.in")] + ([zoo.E("a1.o1", "ss.in"), zoo.E("a1.o2", "ss.in")] if twoout else [zoo.E("a1.out", "ss.in")])
+    """twoout = True: the first producer has two out-ports, both fanned into the sub-stream (two members written by the same task);
+    "abs" / "mixed": all producers / the first producer declare their outputs by absolute paths"""
+    absdir = "$PWD/o/"
+    procs = [zoo.src("s1", zoo.items(n1, "a")), zoo.cmd("a1", ["in"], ["o1", "o2"] if twoout is True else ["out"]), dict(name="ss", kind="substream")]
+    if twoout in ("abs", "mixed"): procs[1]["outdir"] = absdir
+    edges = [zoo.E("s1.out", "a1.in")] + ([zoo.E("a1.o1", "ss.in"), zoo.E("a1.o2", "ss.in")] if twoout is True else [zoo.E("a1.out", "ss.in")])
     if n2 >= 0:
         procs += [zoo.src("s2", zoo.items(n2, "b")), zoo.cmd("a2", ["in"])]
+        if twoout == "abs": procs[-1]["outdir"] = absdir
         edges += [zoo.E("s2.out", "a2.in"), zoo.E("a2.out", "ss.in")]
     ph = "{i:in|join:%s%s}" % (sep, ("|" + mod) if mod else "")
     procs.append(dict(name="cat", kind="cmd", ins=["in"], outs=["out"], joins={"in": sep}, arg="echo 'ARGS[%s]' > {o:out}" % ph))
     edges.append(zoo.E("ss.substream", "cat.in"))
-    return dict(name="JN", max=3, bufsize=buf, procs=procs, edges=edges)
+    inst = dict(name="JN", max=3, bufsize=buf, procs=procs, edges=edges)
+    if twoout in ("abs", "mixed"): inst["mkdirs"] = ["o"]      # absolute outputs: the destination directory exists (stated precondition, C13)
+    return inst
 
 def undo(arg, mod, members):
-    a = arg[3:] if arg.startswith("../") else arg
+    a = arg[3:] if (arg.startswith("../") and not arg[3:].startswith("/")) else arg      # relative members are referenced from inside the temp dir
     if not mod: return a
     if mod == "%.txt": return a + ".txt"
     if mod == "basename":
@@ -77,7 +83,9 @@ def check_C18(tier):
                     if thorough or rng.random() < 0.35 or (n >= 2 and mod and sep == " "):
                         cases.append((n, -1, sep, mod, buf))
     cases += [(2, 2, ",", "", 1), (3, 2, " ", "%.txt", 2), (1, 3, ":", "basename", 1), (12, -1, " ", "", 2), (9, 11, ",", "%.txt", 1)]
+    cases += [(3, -1, ", ", "", 2), (2, 2, "--", "basename", 1), (3, -1, " -I ", "", 2), (2, -1, "::", "%.txt", 1)]      # separators of several characters
     cases = [c + (False,) for c in cases] + [(1, -1, " ", "", 1, True), (2, -1, ",", "", 2, True), (3, 2, " ", "%.txt", 1, True)]
+    cases += [(3, -1, " ", "", 2, "abs"), (2, 2, ",", "", 1, "abs"), (2, 1, " ", "", 2, "mixed")]      # members with absolute paths (all / some)
     def one(c):
         n1, n2, sep, mod, buf, twoout = c
         inst = join_inst(n1, n2, sep, mod, buf, twoout)
@@ -92,7 +100,7 @@ def check_C18(tier):
         return c, inst, rrs, info, res
     for c, inst, rrs, info, res in pmap(one, cases, workers=8):
         n1, n2, sep, mod, buf, twoout = c
-        label = "lengths (%d,%d) sep %r modifier %r bufsize %d%s" % (n1, n2, sep, mod, buf, " (first producer: two out-ports into the sub-stream)" if twoout else "")
+        label = "lengths (%d,%d) sep %r modifier %r bufsize %d%s" % (n1, n2, sep, mod, buf, " (first producer: two out-ports into the sub-stream)" if twoout is True else (" (member paths: %s)" % twoout if twoout else ""))
         for rr, (members, argv) in zip(rrs, info):
             chk.evaluations += 1
             if rr.timeout or rr.deadlock:
@@ -103,7 +111,7 @@ def check_C18(tier):
                 missing = [a for a in argv if "o/%s" % os.path.basename(a) not in rr.snapshot]
                 if missing:
                     chk.violation("paths in the join placeholder do not resolve from the task's working directory: %s (%s)" % (missing[:3], label), dict(instance=inst))
-            want = (n1 if n1 > 0 else 0) * (2 if twoout else 1) + (n2 if n2 > 0 else 0)
+            want = (n1 if n1 > 0 else 0) * (2 if twoout is True else 1) + (n2 if n2 > 0 else 0)
             if members is not None and len(members) != want:
                 chk.violation("joined task got %d files, the sub-stream has %d (%s)" % (len(members), want, label), dict(instance=inst, members=members))
         if res.error:
